@@ -38,7 +38,8 @@ RULE = ("random 2-treatment screens (1-3 samples, 3-6 treatments + control, one-
         "generator / smoother / initial cover / hold-out of retrospective.py with random parameters, RandomScorer, "
         "dbal_fast_gauss_scoring_vectorized with max_combos < C(n,3), GaussianDBALScorer/RandomScorer/SizeScorer through score_chunk, "
         "KPerSamplePlatePolicy, select_next_plate, sample_mvn_from_precision, one Gibbs sweep and sampling.sample of both MCMC models "
-        "(all sampler options), the four CLI mains with --seed; each run twice (global generator reseeded differently, unrelated "
+        "(all sampler options; also on a model that already HOLDS a generator -- constructor rng= / earlier set_rng -- compared with a fresh "
+        "model, and a fully resetting stub model trained three times in one process with generators tagged by identity), the four CLI mains with --seed; each run twice (global generator reseeded differently, unrelated "
         "global draws interleaved). Shape parameters of the model trace are computed from the operation's inputs, except the "
         "value-dependent ones (greedy cover completion rounds, ensemble smoother truncations) which are taken from the observed "
         "event count. Non-trivial: the operation completed and made at least one draw.")
@@ -73,10 +74,12 @@ class RecGen:
 class Instr:
     """installs the GLOBAL proxies and the default_rng replacement for the duration of a `with`"""
 
-    def __init__(self):
+    def __init__(self, tag_ids=False):
         self.events = []
         self.stages = []
         self._saved = {}
+        self.tag_ids = tag_ids          # tag every seeded generator by creation order: G1, G2, ...
+        self.n_seeded = 0
 
     def make_g(self, seed):
         return RecGen(_ORIG_DEFAULT_RNG(seed), "G", self.events)
@@ -107,6 +110,9 @@ class Instr:
             if seed is None:
                 log.append("FRESH.newgen")
                 return RecGen(_ORIG_DEFAULT_RNG(), "FRESH", log)
+            if self.tag_ids:
+                self.n_seeded += 1
+                return RecGen(_ORIG_DEFAULT_RNG(seed), "G%d" % self.n_seeded, log)
             return RecGen(_ORIG_DEFAULT_RNG(seed), "G", log)
         np.random.default_rng = default_rng
         return self
@@ -812,6 +818,167 @@ def gen_case(rng, op):
     return case
 
 
+# ------------------------------------------------------------------ training is a function of sample()'s seed only
+def _perturb(gseed, i):
+    np.random.seed((gseed + 7919 * i) % (2 ** 32))
+    pyrandom.seed(gseed + 13 * i)
+    if i:
+        np.random.rand(2 + i)
+        np.random.normal(size=i)
+
+
+def train_variant(case, held_k, variant_index):
+    """sampling.sample on a model that holds NO generator (held_k None) or one seeded with held_k (constructor argument rng= for
+    SparseDrugCombo, an earlier set_rng for the interaction model); the held generator is tagged HELD"""
+    from batchie import sampling
+    from batchie.core import ThetaHolder
+    from batchie.data import ExperimentSpace
+    _perturb(case["gseed"], variant_index)
+    s = build_screen(case["screen"])
+    ins = Instr()
+    r = {"events": ins.events}
+    before = global_sig()
+    try:
+        with quiet():
+            ms = case["model"]
+            held = None if held_k is None else RecGen(_ORIG_DEFAULT_RNG(held_k), "HELD", ins.events)
+            if ms["kind"] == "combo" and held is not None:
+                from batchie.models.sparse_combo import SparseDrugCombo
+                m = SparseDrugCombo(experiment_space=ExperimentSpace.from_screen(s), n_embedding_dimensions=ms["dims"], fake_intercept=ms["fake"],
+                                    mult_gamma_proc=ms["mult"], local_shrinkage=ms["local"], rng=held)
+                obs = s.subset_observed()
+                if obs is not None:
+                    m.add_observations(obs)
+            else:
+                m = make_model(ms, s)
+                if held is not None:
+                    m.set_rng(held)
+            toks = sweep_cfg_tokens(m)
+            h = ThetaHolder(n_thetas=case["n_thetas"])
+            with ins:
+                sampling.sample(m, h, seed=case["seed"], n_chains=case["n_chains"], chain_index=case["chain_index"], n_burnin=case["n_burnin"], thin=case["thin"])
+        r.update(out=H10.show_holder(h), err=None, toks=toks + ["steps=%d" % (case["n_burnin"] + case["n_thetas"] * case["thin"])])
+    except Exception as e:
+        r.update(out=None, err=type(e).__name__ + ": " + str(e)[:160], toks=None)
+    r["gstate_same"] = global_sig() == before
+    return r
+
+
+def judge_train_held(case, res, queue=None):
+    runs = [train_variant(case, None, 0), train_variant(case, case["k1"], 1), train_variant(case, case["k2"], 2)]
+    names = ["fresh model (holds no generator)", "model holding default_rng(%d)" % case["k1"], "model holding default_rng(%d)" % case["k2"]]
+    bad = sorted({e for r in runs for e in r["events"] if not e.startswith("G.")})
+    if bad:
+        res.fail("sampling.sample: draws during training do not come from the generator derived from this call's seed (the model kept a generator it held before)",
+                 case, {"non_G": bad, "events": runs[1]["events"][:20]}, "every draw from the generator sample() creates", signature="C18:non-G-draw:sample_mcmc_held")
+    if not all(r["gstate_same"] for r in runs):
+        res.fail("sampling.sample perturbs the process-global random state", case, {}, "global state unchanged", signature="C18:global-state-perturbed:sample_mcmc_held")
+    outs = [r["out"] if r["err"] is None else r["err"].split(":")[0] for r in runs]
+    if len(set(outs)) != 1:
+        res.fail("training through sampling.sample depends on a generator the model held before the call (constructor rng= / earlier set_rng), "
+                 "not only on (observations, seed, n_chains, chain_index)", case, {n: (o or "")[:200] for n, o in zip(names, outs)},
+                 "identical thetas for the three models", signature="C18:training-depends-on-held-generator")
+    if queue is not None:
+        for i, r in enumerate(runs):
+            if r["err"] is None:
+                queue("sample_mcmc_held", case, " ".join(["c18.trace", "sampleMCMC"] + r["toks"]), ",".join(r["events"]) if r["events"] else "-")
+                if r["events"]:
+                    tags = sorted({e.split(".")[0] for e in r["events"]})
+                    queue("sample_calls", case, "c18.calls %s 1" % ("-" if i == 0 else "0"), ",".join({"G": "1", "HELD": "0"}.get(t, "?") for t in tags))
+    return runs[0]
+
+
+def make_stub(d):
+    from batchie.core import MCMCModel
+
+    class StubTheta:
+        def __init__(self, x, t):
+            self.x, self.t = x, t
+
+    class StubModel(MCMCModel):
+        """fully resetting random-walk model that draws from self.rng in step()"""
+
+        def __init__(self):
+            self._rng = None
+            self.reset_model()
+
+        def reset_model(self):
+            self.x = np.zeros(d)
+            self.t = 0
+
+        def set_rng(self, rng):
+            self._rng = rng
+
+        @property
+        def rng(self):
+            return self._rng
+
+        def step(self):
+            self.x = self.x + self.rng.normal(size=d)
+            self.t += 1
+
+        def get_model_state(self):
+            return StubTheta(self.x.copy(), self.t)
+    return StubModel()
+
+
+def judge_train_stub(case, res, queue=None):
+    """the SAME model object trained several times in one process"""
+    from batchie import sampling
+    from batchie.core import ThetaHolder
+    _perturb(case["gseed"], 0)
+    ins = Instr(tag_ids=True)
+    before = global_sig()
+    calls = []            # (object name, seed, canonical output, tags of the draws, expected generator id)
+
+    def call(m, name, seed):
+        h = ThetaHolder(n_thetas=case["n_thetas"])
+        start = len(ins.events)
+        sampling.sample(m, h, seed=seed, n_chains=case["n_chains"], chain_index=case["chain_index"], n_burnin=case["n_burnin"], thin=case["thin"])
+        out = ";".join("%d:%s" % (t.t, np.asarray(t.x, dtype=float).tobytes().hex()) for t in h.thetas)
+        calls.append((name, seed, out, sorted({e.split(".")[0] for e in ins.events[start:]}), "G%d" % ins.n_seeded))
+    try:
+        with ins, quiet():
+            a = make_stub(case["d"])
+            if case["held"]:
+                a.set_rng(RecGen(_ORIG_DEFAULT_RNG(case["k1"]), "HELD", ins.events))
+            call(a, "A", case["s1"])
+            call(a, "A", case["s2"])
+            call(a, "A", case["s2"])
+            call(make_stub(case["d"]), "fresh", case["s2"])
+    except Exception as e:
+        res.fail("sampling.sample raises on the stub MCMC model", case, type(e).__name__ + ": " + str(e)[:200], "thetas", signature="C18:stub-raises")
+        return None
+    if global_sig() != before:
+        res.fail("sampling.sample perturbs the process-global random state", case, {}, "global state unchanged", signature="C18:global-state-perturbed:sample_mcmc_stub")
+    report = [{"object": c[0], "seed": c[1], "draws_from": c[3], "generator_of_this_call": c[4], "out": c[2][:60]} for c in calls]
+    steps = case["n_burnin"] + case["n_thetas"] * case["thin"]
+    stale = [c for c in calls if steps > 0 and c[3] != [c[4]]]
+    if stale:
+        res.fail("sampling.sample: the model's draws do not come from the generator created by THIS call (stale generator of an earlier call / held generator)",
+                 case, report, "call i draws only from the generator call i created", signature="C18:sample-draws-from-stale-generator")
+    if calls[1][2] != calls[3][2]:
+        res.fail("sample(seed=%d) after sample(seed=%d) on the same (fully resetting) model differs from sample(seed=%d) on a fresh model" % (case["s2"], case["s1"], case["s2"]),
+                 case, report, "identical thetas", signature="C18:retraining-differs-from-fresh")
+    if calls[1][2] != calls[2][2]:
+        res.fail("sample(seed=%d) twice on the same model gives different thetas" % case["s2"], case, report, "identical thetas", signature="C18:retraining-differs-from-fresh")
+    if queue is not None and steps > 0:
+        obs = ",".join((c[3][0][1:] if len(c[3]) == 1 and c[3][0].startswith("G") else "0" if c[3] == ["HELD"] else "?") for c in calls[:3])
+        queue("sample_calls", case, "c18.calls %s 1,2,3" % ("0" if case["held"] else "-"), obs)
+    return calls
+
+
+def gen_train_case(rng, op):
+    nch = rng.randint(1, 3)
+    case = {"op": op, "gseed": rng.getrandbits(31), "n_thetas": rng.randint(1, 3), "n_burnin": rng.randint(0, 2), "thin": rng.randint(1, 2),
+            "n_chains": nch, "chain_index": rng.randrange(nch), "k1": rng.randint(0, 50), "k2": rng.randint(51, 99)}
+    if op == "train_held":
+        case.update(screen=gen_raw_screen(rng), model=gen_model_spec(rng), seed=rng.getrandbits(31))
+    else:
+        case.update(d=rng.randint(1, 3), s1=rng.randint(0, 20), s2=rng.randint(21, 40), held=rng.random() < 0.3)
+    return case
+
+
 # ------------------------------------------------------------------ the VI model (known finding)
 def run_vi(res, case):
     """sampling.sample with ComboGridFactorModel twice, same seed"""
@@ -909,6 +1076,18 @@ def run(ctx, res):
             if t == 0:
                 res.sample({"op": op, "model_line": (" ".join(["c18.trace", A["model_op"]] + A["toks"]) if A["err"] is None else A["err"]),
                             "events": A["events"][:12], "n_events": len(A["events"])})
+    for op, fn in (("train_held", judge_train_held), ("train_stub", judge_train_stub)):
+        for t in range(ctx.scale(16, 200, 80)):
+            case = gen_train_case(rng, op)
+            res.evaluations += 1
+            res.count("op." + op)
+            r = fn(case, res, queue)
+            if r is not None:
+                res.nontrivial.add(common.short_hash(case))
+            if op == "train_stub" and case["held"]:
+                res.count("train_stub.held")
+            if op == "train_held":
+                res.count("train_held." + case["model"]["kind"])
     vi_case = {"op": "sample_vi", "seed": 5, "gseed": rng.getrandbits(20)}
     res.evaluations += 1
     run_vi(res, vi_case)
@@ -926,5 +1105,11 @@ def replay(ctx, case, res):
     warm_up()
     if case.get("op") == "sample_vi":
         run_vi(res, case)
+        return
+    if case.get("op") == "train_held":
+        judge_train_held(case, res, None)
+        return
+    if case.get("op") == "train_stub":
+        judge_train_stub(case, res, None)
         return
     judge(case, res, None)
